@@ -84,6 +84,7 @@ var (
 	flagTrace   = flag.Bool("trace", false, "print decoded log")
 	flagOutDir  = flag.String("replaydir", "", "where to write replay files")
 	flagShrink  = flag.Int("shrink", 400, "in-process shrink budget")
+	flagShrinkSecs = flag.Int("shrinksecs", 45, "wall-clock cap for in-process shrinking")
 	flagTree    = flag.String("tree", "", "tree hash (recorded in replay files)")
 	flagFlavour = flag.String("flavour", "native", "build flavour label")
 	flagDigests = flag.Bool("digests", false, "print per-world digests (determinism self-test)")
@@ -329,7 +330,11 @@ func shrinkAndWrite(p *Prop, r Result, idx uint64) string {
 	best := r.Tape
 	note := ""
 	if *flagShrink > 0 {
+		deadline := time.Now().Add(time.Duration(*flagShrinkSecs) * time.Second)
 		b, tried := simrt.Shrink(r.Tape, *flagShrink, func(c []uint64) bool {
+			if time.Now().After(deadline) {
+				return false // wall-clock cap on shrinking: it only ever stops the search, the kept tape still reproduces
+			}
 			rr := runWorld(p, simrt.ReplayTape(c), false)
 			return sameClass(rr.V, r.V)
 		})
